@@ -5,6 +5,7 @@
 package simdisk
 
 import (
+	"time"
 	"errors"
 	"fmt"
 	"io"
@@ -178,6 +179,9 @@ type Mem struct {
 	// Frozen, when set, makes every write fail the run (used to assert
 	// that nothing writes after a crash).
 	crashed bool
+	// Slow: reads of these (resolved) paths take that long in real time
+	// before they happen (a straggling read among fast ones).
+	Slow map[string]time.Duration
 	occ     map[string]int // per (op, path) call counts of the current operation
 }
 
@@ -190,7 +194,7 @@ func NewMem() *Mem {
 // never mutated in place), maps are copied. Log, plan and counters are
 // reset.
 func (m *Mem) Clone() *Mem {
-	c := &Mem{Files: make(map[string][]byte, len(m.Files)), Dirs: make(map[string]bool, len(m.Dirs)), Cwd: m.Cwd, Order: m.Order}
+	c := &Mem{Files: make(map[string][]byte, len(m.Files)), Dirs: make(map[string]bool, len(m.Dirs)), Cwd: m.Cwd, Order: m.Order, Slow: m.Slow}
 	for k, v := range m.Files {
 		c.Files[k] = v
 	}
@@ -244,6 +248,15 @@ func (m *Mem) Remove(p string) { delete(m.Files, m.Resolve(p)) }
 func (m *Mem) Get(p string) ([]byte, bool) {
 	d, ok := m.Files[m.Resolve(p)]
 	return d, ok
+}
+
+func (m *Mem) slowFor(p string) time.Duration {
+	m.mu.Lock()
+	defer m.mu.Unlock()
+	if len(m.Slow) == 0 {
+		return 0
+	}
+	return m.Slow[m.Resolve(p)]
 }
 
 // BeginOp resets the per-operation I/O call index and installs a plan.
@@ -358,6 +371,9 @@ func (m *Mem) parentErr(p string) syscall.Errno {
 
 // ReadFile implements gopar's fileIO.
 func (m *Mem) ReadFile(p string) ([]byte, error) {
+	if d := m.slowFor(p); d > 0 {
+		time.Sleep(d)
+	}
 	m.mu.Lock()
 	defer m.mu.Unlock()
 	if m.crashed {
